@@ -326,55 +326,44 @@ def rule_colours(facts, rep):
     rep.check(ok, "colours", R + "set_color", "gcolor←fg-then-fcolor←bg", f"{seq[:2]}", loc(t))
     a = facts.body("anstyle_roff", R + "add_color_to_roff")
     rep.fn(a["path"])
-    m = ac.single_expr(a["hir"])
-    arms = {}
-    for arm in m["arms"]:
-        p = arm["pat"]
-        if p.get("k") == "ppath" or (p.get("k") == "pts" and not p["pats"]):
-            arms["None"] = arm
-        else:
-            inner = p["pats"][0] if p.get("k") == "pts" else {}
-            while inner.get("k") in ("pref", "pderef"):
-                inner = inner["p"]
-            arms[hir.last_seg(hir.pat_path(inner)) or "?"] = arm
+    # by abstract evaluation on each kind of colour (symbolic payload): the requests made of the document, in order — a match on
+    # `&Option<Color>`, a let-else for the unset colour and a match on the colour, early returns: the same function
+    import abseval
+    CO = "anstyle::color::Color::"
 
-    def controls(arm):
-        out = []
-        for n in hir.walk(arm["body"]):
-            if hir.is_call(n, "roff::Roff::control"):
-                out.append(n)
-        # method chains: innermost (first executed) is nested in args[0]; order by nesting depth
-        def depth(n):
-            d = 0
-            x = hir.simp(n["args"][0])
-            while hir.is_call(x, "roff::Roff::control"):
-                d += 1
-                x = hir.simp(x["args"][0])
-            return d
-        return sorted(out, key=depth)
+    def requests(color):
+        log = []
 
-    # None → control(request, ["default"])
-    cs = controls(arms["None"]) if "None" in arms else []
-    ok = len(cs) == 1 and hir.is_local(cs[0]["args"][1], "control_request") and [hir.lit_val(x) for x in vec_elems(cs[0]["args"][2])] == ["default"]
-    rep.check(ok, "colours", a["path"], "None→'default'", "", loc(a))
-    cs = controls(arms["Ansi"]) if "Ansi" in arms else []
-    ok = len(cs) == 1 and hir.is_local(cs[0]["args"][1], "control_request")
-    if ok:
-        el = vec_elems(cs[0]["args"][2])
-        ok = len(el) == 1 and hir.is_call(hir.simp(el[0]), R + "ansi_color_to_roff")
-    rep.check(ok, "colours", a["path"], "Ansi→hue-name", "", loc(a))
-    cs = controls(arms["Rgb"]) if "Rgb" in arms else []
-    ok = len(cs) == 2
-    if ok:
-        first, second = cs[0], cs[1]
-        el1 = [hirpp.expr(x) for x in vec_elems(first["args"][2])]
-        el2 = [hirpp.expr(x) for x in vec_elems(second["args"][2])]
-        ok = hir.is_def(first["args"][1], "control_requests::CREATE_COLOR") and hir.is_local(second["args"][1], "control_request") and \
-            len(el1) == 3 and "$name" in el1[0] and el1[1] == "'rgb'" and "to_hex" in el1[2] and len(el2) == 1 and "$name" in el2[0]
-    rep.check(ok, "colours", a["path"], "Rgb→defcolor-name-rgb-hex-then-request(name)", "", loc(a))
-    cs = [n for n in hir.walk(arms["Ansi256"]["body"]) if hir.is_call(n, R + "add_color_to_roff")] if "Ansi256" in arms else []
-    ok = len(cs) == 1 and hir.is_local(cs[0]["args"][0], "doc") and hir.is_local(cs[0]["args"][1], "control_request") and bool(hir.calls_in(cs[0]["args"][2], R + "xterm_to_ansi_or_rgb"))
-    rep.check(ok, "colours", a["path"], "Ansi256→reduced-then-same-request", "", loc(a))
+        def elems(t):
+            if isinstance(t, tuple) and t and t[0] == "array":
+                return list(t[1:])
+            if isinstance(t, tuple):
+                for x in t[1:]:
+                    r_ = elems(x)
+                    if r_ is not None:
+                        return r_
+            return None
+        atoms = {"roff::Roff::control": lambda a_: (log.append(("control", a_[1], elems(a_[2]))), a_[0])[1],
+                 R + "add_color_to_roff": lambda a_: (log.append(("again",) + tuple(a_)), ("unit",))[1],
+                 R + "rgb_name": lambda a_: ("name", a_[0]), R + "to_hex": lambda a_: ("hex", a_[0]),
+                 R + "ansi_color_to_roff": lambda a_: ("hue", a_[0]), R + "xterm_to_ansi_or_rgb": lambda a_: ("reduced", a_[0]),
+                 "alloc::string::String::as_str": lambda a_: a_[0], "*": lambda cal, a_, e_: ("app", cal) + tuple(a_)}
+        try:
+            abseval.Evaluator(facts, "anstyle_roff", atoms).call_fn("anstyle_roff", a["path"], [("sym", "doc"), ("sym", "request"), color])
+        except Unrecognised as ex:
+            return [("not-evaluable", str(ex)[:80])]
+        return log
+    c_ = ("sym", "c")
+    REQ = ("sym", "request")
+    for key, color, want_log in (
+            ("None→'default'", ("none",), [("control", REQ, [("str", "default")])]),
+            ("Ansi→hue-name", ("some", ("ctor", CO + "Ansi", c_)), [("control", REQ, [("hue", c_)])]),
+            ("Rgb→defcolor-name-rgb-hex-then-request(name)", ("some", ("ctor", CO + "Rgb", c_)),
+             [("control", ("str", "defcolor"), [("name", c_), ("str", "rgb"), ("hex", c_)]), ("control", REQ, [("name", c_)])]),
+            ("Ansi256→reduced-then-same-request", ("some", ("ctor", CO + "Ansi256", c_)),
+             [("again", ("sym", "doc"), REQ, ("some", ("reduced", c_)))])):
+        got = requests(color)
+        rep.check(got == want_log, "colours", a["path"], key, f"requests made: {str(got)[:200]}", loc(a))
     h = facts.body("anstyle_roff", R + "to_hex")
     rep.fn(h["path"])
     import poly
